@@ -31,6 +31,23 @@ Second round (after seeded changes C11-4..6):
     models AFTER model() / model_contrib() / model_full_contrib() (transmission with both path
     methods, emission); binding C evaluates the long-lived model before reading the structure and
     compares with a fresh, un-evaluated one.
+Third round (after seeded change C11-9): the TYPE of the components a model is assembled from, and the
+arrays the model shares with them.
+  * MC_Atmosphere: the temperature component reads the model's own layer-pressure array whenever its
+    profile is evaluated (Step, Evaluate, Read), the composition reads the model's temperature array;
+    action Read + property ReadsAreRepeatable; ShareEffect = a component that writes into what it is
+    handed is refuted by TLC (LayerIsGeometricMean, ReadsAreRepeatable).  Exported input class
+    `tkinds` (Atmosphere.tla!TempComponentKinds): binding A builds every vector with each built-in
+    temperature component that can be told T (array, array + pressure points, file, file + pressure
+    column, Rodgers2000 with identity covariance, NPoint with nodes on the layers, Isothermal).
+  * binding B draws every built-in temperature component (also Guillot2010, smoothed NPoint,
+    correlated Rodgers2000, interpolated arrays) and every gas type (ConstantGas, ArrayGas,
+    TwoLayerGas, TwoPointGas, PowerGas), as built, after a settings history and after evaluation; new
+    trace event `reads` (two consecutive reads of every exposed array; arrays handed to
+    calculate_scale_properties / <temperature>.initialize_profile / <chemistry>.initialize_chemistry
+    against the harness's private copies), clauses reads_repeatable and handed_arrays_unchanged.
+  * binding C: the long-lived models of the history walks use Guillot2010 / NPoint / Rodgers2000 and
+    TwoLayerGas / PowerGas / TwoPointGas with their own fitting parameters among the settings.
 """
 import math
 import os
@@ -47,6 +64,8 @@ from ..fx_vertical import (dec, FixedMuChemistry, clear_opacities, register_flat
                            ln_ratio)
 from ..fx_chemtable import (UNITS, unit_factor, units_consistent, write_table, stated_weights_chemistry_file,
                             EVAL_OPS, evaluate, add_contributions, tmpfile)
+from ..fx_components import (TOLD_KINDS, TEMP_KINDS, GAS_TYPES, told_temperature, temperature_recipe, finish_guillot,
+                             make_temperature, gas_recipe, make_taurex_chemistry, read_exposed, same_array, sample)
 
 PPB = 100            # relative tolerance of the TLC-side comparison, parts per 1e9 (1e-7)
 REL = 1e-9           # Python-side comparison against TLC's exact rationals (binding A)
@@ -54,6 +73,7 @@ LAYER_KEYS = ['pressure_profile', 'temp_profile', 'density_profile', 'altitude_p
               'scaleheight_profile', 'mu_profile', 'active_mix_profile', 'inactive_mix_profile']
 CHEM_CLAUSES = ['chem_wellformed', 'mixing_ratios_aligned_with_layers', 'mu_is_weighted_mean_of_layer']
 GAS_POOL = ['H2', 'He', 'CO2', 'N2', 'CH4']      # besides H2O (the only gas with a registered cross-section)
+READ_CLAUSES = ['reads_repeatable', 'handed_arrays_unchanged']
 STEP_CLAUSES = ['step_entries_present_and_positive', 'altitude_zero_at_surface', 'altitude_strictly_increasing',
                 'dz_is_level_difference', 'dz_is_H_ln_pressure_ratio', 'H_is_kT_over_mu_g', 'g_inverse_square',
                 'density_ideal_gas']
@@ -130,7 +150,15 @@ def option_label(klass, opt, unit=None):
 UNIT_SETS = [dict(T0=500.0, R0=1.0e7, m0=2.0), dict(T0=150.0, R0=2.5e6, m0=11.0)]
 
 
-def build_from_vector(v, units, pkind, X):
+def told_kind(v, j):
+    """the j-th (cyclically) of the temperature component kinds the spec exports for this vector"""
+    kinds = [k for k in TOLD_KINDS if k in v.get('tkinds', ['array'])]
+    if not kinds:
+        raise Machinery('vector without temperature component kinds: %r' % (v.get('tkinds'),))
+    return kinds[j % len(kinds)]
+
+
+def build_from_vector(v, units, pkind, X, tkind='array'):
     C = X['C']
     n = v['n']
     T0, R0, m0 = units['T0'], units['R0'], units['m0']
@@ -143,7 +171,9 @@ def build_from_vector(v, units, pkind, X):
         opt = v['inputs'][pkind['opt']]
         pp = array_profile(X, pkind['klass'], [10.0 ** e for e in opt['array']], bool(opt['reverse']),
                            unit=pkind.get('unit', 'Pa'), layout=FILE_LAYOUTS[pkind.get('layout', 0)], tag='vec')
-    tp = X['TemperatureArray'](tp_array=[t * T0 for t in v['T']])
+    # the built-in temperature component of kind `tkind`, told the vector's temperatures (and, where the kind
+    # takes pressure nodes, the layer pressures the vector's grid declares)
+    tp = told_temperature(tkind, [t * T0 for t in v['T']], [10.0 ** e for e in v['lay']], [10.0 ** e for e in v['lev']], tmpdir())
     if pkind == 'simple':
         # the real ChemistryFile on the spec's table (rows = layers, columns = gases); which column is
         # the active gas rotates with the vector
@@ -173,13 +203,14 @@ def at(a, k):
         return None
 
 
-def judge_vector(ctx, v, units, pkind, X):
+def judge_vector(ctx, v, units, pkind, X, tkind='array'):
     C = X['C']
     n = v['n']
-    model, gm_si = build_from_vector(v, units, pkind, X)
+    model, gm_si = build_from_vector(v, units, pkind, X, tkind)
     R0, T0 = units['R0'], units['T0']
-    vec = dict(v, units=units, pkind=pkind)
-    cls0 = '%s:n=%d' % (pkind if pkind == 'simple' else option_label(pkind['klass'], v['inputs'][pkind['opt']], pkind.get('unit')), n)
+    vec = dict(v, units=units, pkind=pkind, tkind=tkind)
+    cls0 = '%s:n=%d%s' % (pkind if pkind == 'simple' else option_label(pkind['klass'], v['inputs'][pkind['opt']], pkind.get('unit')), n,
+                          '' if tkind == 'array' else ':T=' + tkind)
 
     def cmp(clause, name, got, want, k):
         ok = got is not None and close(got, want, rel=REL, abs_=0.0 if want != 0 else 1e-300)
@@ -192,6 +223,7 @@ def judge_vector(ctx, v, units, pkind, X):
         cmp('altitude_recurrence', 'altitude_boundaries', at(model.altitude_boundaries, k), float(frac(v['z'][k])) * R0, k)
     for k in range(n):
         cmp('layer_is_geometric_mean', 'pressure_profile', at(model.pressureProfile, k), 10.0 ** v['lay'][k], k)
+        cmp('temperature_aligned_with_layers', 'temp_profile', at(model.temperatureProfile, k), v['T'][k] * T0, k)
         cmp('altitude_recurrence', 'altitude_profile', at(model.altitudeProfile, k), float(frac(v['z'][k])) * R0, k)
         cmp('altitude_recurrence', 'deltaz', at(model.deltaz, k), float(frac(v['z'][k + 1]) - frac(v['z'][k])) * R0, k)
         cmp('g_inverse_square', 'gravity_profile', at(model.gravity_profile, k),
@@ -256,6 +288,11 @@ def judge_vector(ctx, v, units, pkind, X):
                 continue
             ctx.verdict('one_entry_per_layer', rec[name] == want, cls='%s:%s:%s' % (cls0, src, name),
                         detail='%s from %s has %d entries, expected %d' % (name, src, rec[name], want), vector=vec)
+    # after every exposed profile has been read (several times): the pressures are still the vector's
+    for k in range(n):
+        cmp('layer_is_geometric_mean', 'pressure_profile:after-all-reads', at(model.pressureProfile, k), 10.0 ** v['lay'][k], k)
+    for k in range(n + 1):
+        cmp('levels_log_spaced', 'pressure_levels:after-all-reads', at(model.pressure.pressure_profile_levels, k), 10.0 ** v['lev'][k], k)
 
 
 def run_vectors(ctx, vecs, X):
@@ -263,13 +300,13 @@ def run_vectors(ctx, vecs, X):
         raise Machinery('no vectors exported')
     for j, v in enumerate(vecs):
         units = UNIT_SETS[j % len(UNIT_SETS)]
-        judge_vector(ctx, v, units, 'simple', X)
+        judge_vector(ctx, v, units, 'simple', X, told_kind(v, j))
         if v['n'] >= 2:
             # the spec's input options (orientation x reverse flag) in turn, through both classes
             nopt = len(v['inputs'])
             pk = dict(klass='array' if (j // nopt) % 2 == 0 else 'file', opt=j % nopt,
                       unit=FILE_UNITS[(j // (2 * nopt)) % len(FILE_UNITS)], layout=(j // 3) % len(FILE_LAYOUTS))
-            judge_vector(ctx, v, units, pk, X)
+            judge_vector(ctx, v, units, pk, X, told_kind(v, j // 2 + 3))
 
 
 # --------------------------------------------------------------------------- projection
@@ -301,13 +338,14 @@ def observed_lengths(model):
 
 
 # --------------------------------------------------------------------------- binding B
-def random_chemistry(rng, n, X, want=None):
+def random_chemistry(rng, n, X, want=None, gas=None, lmax=6.0, lmin=-2.0):
     """-> (chemistry, declared table).  The declared table is what the USER handed over per layer:
     decl = dict(kind, names (declared gases, column order), table[layer][column]); its entries are
     pairwise distinct (random reals), so every misalignment (shift, reversal, transposition of a
-    square table) changes it."""
+    square table) changes it.  decl['make']() builds a second, identical, never-used chemistry;
+    decl['gastypes']: the gas types of a TaurexChemistry (`gas` forces the type of H2O)."""
     r0, r1 = rng.random(), rng.random()
-    if want in ('file', 'file-square') or (want is None and r0 < 0.45):
+    if want in ('file', 'file-square') or (want is None and gas is None and r0 < 0.4):
         # file chemistry: one row per layer (surface first), one column per gas; square case
         # (as many gases as layers) forced for about half of the small grids
         ngas = n if (2 <= n <= 6 and (r1 < 0.55 or want == 'file-square')) else rng.randint(2, 6)
@@ -320,25 +358,33 @@ def random_chemistry(rng, n, X, want=None):
             table.append([x / tot for x in raw])
         path = write_table(tmpfile(tmpdir(), 'rnd-chem'), table)
         # what the file says (repr round-trips exactly)
-        return X['ChemistryFile'](gases=list(names), filename=path), dict(kind='file:%s' % ('square' if ngas == n else 'ngas=%d' % ngas),
-                                                                        names=names, table=table)
-    chem = X['TaurexChemistry'](fill_gases=['H2', 'He'], ratio=rng.uniform(0.05, 0.3))
-    cols = {}
-    if rng.random() < 0.3:
-        chem.addGas(X['ConstantGas']('H2O', mix_ratio=10.0 ** rng.uniform(-6, -1)))
-    else:
-        cols['H2O'] = [10.0 ** rng.uniform(-6, -0.4) for _ in range(n)]
+        make = lambda: X['ChemistryFile'](gases=list(names), filename=path)
+        return make(), dict(kind='file:%s' % ('square' if ngas == n else 'ngas=%d' % ngas), names=names, table=table,
+                            make=make, gastypes=[])
+    # TaurexChemistry (H2 / He fill): H2O, the only gas with a registered cross-section, is always there; every gas is
+    # of any of the built-in types (a two-point profile needs two layers); caps keep the sum of the mixing ratios below 1
+    ratio = rng.uniform(0.05, 0.3)
+
+    def gtype(p_array, p_constant):
+        r = rng.random()
+        if r < p_array:
+            return 'array'
+        if r < p_array + p_constant:
+            return 'constant'
+        return rng.choice([t for t in GAS_TYPES if t not in ('array', 'constant') and not (t == 'twopoint' and n < 2)])
+    gases = [gas_recipe(gas or gtype(0.45, 0.2), 'H2O', rng, n, lmax, lmin, 0.4)]
     if rng.random() < 0.6:
-        cols['CO2'] = [10.0 ** rng.uniform(-6, -0.6) for _ in range(n)]
+        gases.append(gas_recipe(gtype(0.6, 0.1), 'CO2', rng, n, lmax, lmin, 0.25))
     if rng.random() < 0.5:
-        chem.addGas(X['ConstantGas']('N2', mix_ratio=10.0 ** rng.uniform(-5, -1)))
+        gases.append(gas_recipe(gtype(0.0, 0.6), 'N2', rng, n, lmax, lmin, 0.1))
     if rng.random() < 0.3:
-        cols['CH4'] = [10.0 ** rng.uniform(-7, -1.0) for _ in range(n)]
-    for nm, arr in cols.items():
-        chem.addGas(X['ArrayGas'](nm, list(arr)))
+        gases.append(gas_recipe(gtype(0.6, 0.1), 'CH4', rng, n, lmax, lmin, 0.1))
+    cols = {g['name']: g['arr'] for g in gases if g['type'] == 'array'}
     names = list(cols)
-    return chem, dict(kind='taurex:arraygas=%d%s' % (len(names), ':square' if len(names) == n else ''), names=names,
-                      table=[[cols[nm][k] for nm in names] for k in range(n)])
+    make = lambda: make_taurex_chemistry(ratio, gases)
+    return make(), dict(kind='taurex:arraygas=%d%s' % (len(names), ':square' if len(names) == n else ''), names=names,
+                        table=[[cols[nm][k] for nm in names] for k in range(n)], make=make,
+                        gastypes=sorted(set(g['type'] for g in gases)))
 
 
 MODEL_KINDS = ['transmission-old-path', 'transmission-new-path', 'emission']
@@ -350,7 +396,18 @@ FORCED = [(3, 'simple', dict(chem='file-square')), (2, 'array', dict(chem='file-
           (1, 'evaluated', dict(mkind='transmission-new-path')), (7, 'simple', dict(unit='km', chem='taurex')),
           (8, 'simple', dict(unit='cm', chem='file')), (9, 'history', dict(unit='Rjup')),
           (4, 'array', dict(klass='array', orient='surface_first')), (5, 'array', dict(klass='file', orient='surface_first')),
-          (3, 'array', dict(klass='file', orient='top_first'))]
+          (3, 'array', dict(klass='file', orient='top_first')),
+          # every built-in temperature component, as built and after evaluation (and after a settings history for those
+          # that read the pressure array); every gas type
+          (6, 'simple', dict(temp='guillot', chem='taurex', gas='power')), (5, 'evaluated', dict(temp='guillot', mkind='transmission-old-path')),
+          (1, 'simple', dict(temp='guillot')), (7, 'history', dict(temp='guillot')),
+          (7, 'simple', dict(temp='npoint', chem='taurex', gas='twolayer')), (4, 'evaluated', dict(temp='npoint', mkind='emission')),
+          (5, 'history', dict(temp='npoint')),
+          (8, 'array', dict(temp='rodgers', chem='taurex', gas='twopoint')), (3, 'evaluated', dict(temp='rodgers', mkind='transmission-new-path')),
+          (5, 'simple', dict(temp='array-ppoints')), (6, 'evaluated', dict(temp='array-ppoints', chem='taurex', gas='twolayer')),
+          (4, 'simple', dict(temp='file-pcol')), (6, 'history', dict(temp='file-pcol')), (3, 'evaluated', dict(temp='file')),
+          (4, 'simple', dict(temp='rodgers-cov')), (9, 'evaluated', dict(temp='array-interp', chem='taurex', gas='power')),
+          (2, 'evaluated', dict(temp='isothermal', chem='taurex', gas='twopoint'))]
 
 
 def random_model(rng, n, pkind, X, force=None):
@@ -364,33 +421,44 @@ def random_model(rng, n, pkind, X, force=None):
     emission; one to three contributions) that has been run through its public evaluation entry
     points before it is observed."""
     C = X['C']
-    tstyle = rng.random()
-    if tstyle < 0.3:
-        T = [rng.uniform(200.0, 3000.0)] * n
-    elif tstyle < 0.6:
-        a, b = rng.uniform(200.0, 3000.0), rng.uniform(200.0, 3000.0)
-        T = list(np.linspace(a, b, n))
-    else:
-        T = [rng.uniform(200.0, 3000.0) for _ in range(n)]
+    force = force or {}
+    # the temperature component: any built-in type (the per-layer array of the earlier rounds stays the most frequent)
+    tkind = force.get('temp') or ('array' if rng.random() < 0.4 else rng.choice(TEMP_KINDS))
 
-    def draw(radius_m=None):
+    def draw_grid(radius_m=None):
         if radius_m is None:
             radius_m = rng.uniform(0.05, 2.0) * C.RJUP
-        lmax, lmin = rng.uniform(3.0, 7.0), rng.uniform(-6.0, 1.0)
-        span = (lmax - lmin) * math.log(10.0)
+        return dict(radius=radius_m / C.RJUP, lmax=rng.uniform(3.0, 7.0), lmin=rng.uniform(-6.0, 1.0))
+
+    def draw_mass(c, tmax):
+        span = (c['lmax'] - c['lmin']) * math.log(10.0)
         # planet mass from a chosen surface scale height (mu >= 2 amu): keeps the atmosphere finite
         h_over_r = 10.0 ** rng.uniform(-4.0, math.log10(0.5 / span))
-        mass_kg = C.KBOLTZ * max(T) * radius_m / (2.0 * C.AMU * C.G * h_over_r)
-        return dict(radius=radius_m / C.RJUP, mass=mass_kg / C.MJUP, lmax=lmax, lmin=lmin)
-    cfg = draw()
-    planet = X['Planet'](planet_mass=cfg['mass'], planet_radius=cfg['radius'])
-    force = force or {}
-    chem, decl = random_chemistry(rng, n, X, force.get('chem'))
-    tp = X['TemperatureArray'](tp_array=T)
+        c['mass'] = C.KBOLTZ * tmax * c['radius'] * C.RJUP / (2.0 * C.AMU * C.G * h_over_r) / C.MJUP
+        return c
+    cfg = draw_grid()
     lmax, lmin = cfg['lmax'], cfg['lmin']
+    trec = temperature_recipe(tkind, rng, n, lmax, lmin, tmpdir())
+    if pkind == 'history' and tkind == 'npoint':
+        # the pressure range is going to change under the component: no intermediate nodes (they would have to stay
+        # strictly inside every range the walk visits)
+        trec.update(tpoints=[], ppoints=[])
+    draw_mass(cfg, trec['tmax'])
+    cfgs = [cfg]
+    if pkind == 'history':
+        # a second configuration; the radius stays within a factor 1.4 so that the intermediate
+        # (mixed) configurations are ordinary atmospheres too
+        cfgs.append(draw_mass(draw_grid(radius_m=cfg['radius'] * C.RJUP * rng.uniform(0.7, 1.4)), trec['tmax']))
+    # Guillot2010: the infra-red opacity is drawn for the weakest gravity / highest pressure the model will see
+    finish_guillot(trec, C.G * min(c['mass'] for c in cfgs) * C.MJUP / (max(c['radius'] for c in cfgs) * C.RJUP) ** 2,
+                   10.0 ** max(c['lmax'] for c in cfgs))
+    planet = X['Planet'](planet_mass=cfg['mass'], planet_radius=cfg['radius'])
+    chem, decl = random_chemistry(rng, n, X, force.get('chem'), force.get('gas'), lmax, lmin)
+    tp = make_temperature(trec)
     grid = 'array' if (pkind == 'array' or (pkind == 'evaluated' and n >= 2 and rng.random() < 0.35)) else 'simple'
     declared = dict(input=[], reverse=False, radius=cfg['radius'], mass=cfg['mass'],   # the settings as the user made them
-                    grid=grid, chem=decl, unit=force.get('unit') or rng.choice(UNITS))
+                    grid=grid, chem=decl, unit=force.get('unit') or rng.choice(UNITS), temp=trec,
+                    make_temp=lambda: make_temperature(trec))
     if grid == 'simple':
         pp = X['SimplePressureProfile'](n, 10.0 ** lmin, 10.0 ** lmax)
         declared.update(pmax=10.0 ** lmax, pmin=10.0 ** lmin)
@@ -423,14 +491,13 @@ def random_model(rng, n, pkind, X, force=None):
     else:
         model = X['TransmissionModel'](new_path_method=(mkind == 'transmission-new-path'), **common)
     if pkind == 'evaluated':
-        which = ['absorption'] + [w for w in ('rayleigh', 'clouds') if rng.random() < 0.6]
+        which = ['absorption'] + [w for w in ('rayleigh', 'clouds') if rng.random() < 0.6] + \
+                [w for w in ('flatmie', 'leemie') if rng.random() < 0.25]
         rng.shuffle(which)
         add_contributions(model, which, 10.0 ** rng.uniform(lmin, lmax))
     model.build()
     if pkind == 'history':
-        # a second configuration; the radius stays within a factor 1.4 so that the intermediate
-        # (mixed) configurations are ordinary atmospheres too
-        cfg2 = draw(radius_m=cfg['radius'] * C.RJUP * rng.uniform(0.7, 1.4))
+        cfg2 = cfgs[1]
         todo = [('planet_radius', cfg2['radius']), ('planet_mass', cfg2['mass']),
                 ('atm_max_pressure', 10.0 ** cfg2['lmax']), ('atm_min_pressure', 10.0 ** cfg2['lmin'])]
         rng.shuffle(todo)
@@ -442,6 +509,8 @@ def random_model(rng, n, pkind, X, force=None):
             declared[dict(atm_max_pressure='pmax', atm_min_pressure='pmin', planet_radius='radius', planet_mass='mass')[name]] = value
         model.initialize_profiles()
         label = 'simple:after-history:' + '+'.join(sorted(nm for nm, _ in todo))
+    if tkind != 'array':
+        label = label + ':T=' + tkind
     if pkind == 'evaluated':
         # the structure is read AFTER the public evaluation entry points have run (no re-initialisation
         # by the harness in between: evaluation may only read the structure)
@@ -487,7 +556,7 @@ def chem_event(model, mid, n, decl, X):
         sel = lambda r: list(r)
     else:
         sel = lambda r: [r[k] for k in keep]
-    e = dict(ev='chem', id='%s:chem' % mid, n=len(keep), ppb=PPB, kind=decl['kind'],
+    e = dict(ev='chem', id='%s:chem' % mid, n=len(keep), ppb=PPB, kind=decl['kind'], gases='+'.join(decl.get('gastypes', [])),
              names=names, mix=[[dec(x) for x in sel(r)] for r in mix],
              w=[dec(float(X['get_molecular_weight'](nm))) for nm in names],
              mu=[dec(x) for x in sel(mus)],
@@ -496,19 +565,75 @@ def chem_event(model, mid, n, decl, X):
     return e
 
 
-def route_events(model, mid, n, declared, lev, X):
+def pair(name, a, b):
+    """one record of a `reads` event: a, b = first / second read (or private copy / array after the call)"""
+    return dict(name=name, same=same_array(a, b), a=[dec(x) for x in sample(a)], b=[dec(x) for x in sample(b)])
+
+
+def component_routes(model, n, declared, handed, pairs, first):
+    """The components on their own, as any caller may use them: a second, identical, never-used temperature component
+    and chemistry (built from the recipe, so nothing of the model is touched) are handed the HARNESS'S arrays -- copies
+    of what the model exposes -- initialised, and read twice.  The handed arrays are compared with private copies."""
+    P, T, z = first.get('pressure_profile'), first.get('temp_profile'), first.get('altitude_profile')
+    if P is None or T is None or P.shape != (n,) or T.shape != (n,):
+        return                      # (reported by the other events)
+    try:
+        tp = declared['make_temp']()
+        own = P.copy()
+        tp.initialize_profile(model.planet, n, own)
+        t1 = np.array(tp.profile, dtype=float, copy=True)
+        mid_ = own.copy()
+        t2 = np.array(tp.profile, dtype=float, copy=True)
+        handed.append(pair('temperature.initialize_profile:pressure', P, mid_))
+        handed.append(pair('temperature.profile:pressure', P, own))
+        pairs.append(pair('component:temperature.profile', t1, t2))
+    except Exception as e:
+        handed.append(dict(name='temperature.initialize_profile:raised-%s' % type(e).__name__, same=False, a=[], b=[]))
+    try:
+        ch = declared['chem']['make']()
+        ownP, ownT, ownz = P.copy(), T.copy(), (None if z is None else z.copy())
+        ch.set_star_planet(model.star, model.planet)
+        ch.initialize_chemistry(n, ownT, ownP, ownz)
+        reads = [(np.array(ch.muProfile, dtype=float, copy=True), np.array(ch.activeGasMixProfile, dtype=float, copy=True))
+                 for _ in range(2)]
+        handed.extend(pair('chemistry.initialize_chemistry:' + nm, a, b)
+                      for nm, a, b in (('pressure', P, ownP), ('temperature', T, ownT), ('altitude', z, ownz)))
+        pairs.append(pair('component:chemistry.muProfile', reads[0][0], reads[1][0]))
+        pairs.append(pair('component:chemistry.activeGasMixProfile', reads[0][1], reads[1][1]))
+    except Exception as e:
+        handed.append(dict(name='chemistry.initialize_chemistry:raised-%s' % type(e).__name__, same=False, a=[], b=[]))
+
+
+def reads_event(model, mid, n, declared, handed):
+    """Every exposed array read once, then every array once more (nothing is set in between), then the components on
+    their own.  One record per array."""
+    first = read_exposed(model)
+    second = read_exposed(model)
+    pairs = [pair(nm, first[nm], second.get(nm)) for nm in first]
+    pairs += [pair(nm, None, second[nm]) for nm in second if nm not in first]
+    component_routes(model, n, declared, handed, pairs, second)
+    kinds = 'T=%s:chem=%s' % (declared['temp']['kind'], '+'.join(declared['chem']['gastypes']) or declared['chem']['kind'].split(':')[0])
+    return dict(ev='reads', id='%s:reads' % mid, n=n, kinds=kinds, pairs=pairs, handed=handed)
+
+
+def route_events(model, mid, n, declared, lev, X, handed):
     """The second public route to the vertical structure: Planet.calculate_scale_properties on the
     model's own T, levels and mu, asked for the declared length unit.  One step event per layer
     (a fixed sample of layers for long grids) + the lengths of what is returned."""
     C = X['C']
     unit = declared['unit']
     u = unit_factor(unit)
-    T = np.asarray(model.temperatureProfile, dtype=float)
-    mu = np.asarray(model.chemistry.muProfile, dtype=float)
+    # the arrays handed over are the harness's own; private copies are kept and compared after the call
+    T = np.array(model.temperatureProfile, dtype=float, copy=True)
+    mu = np.array(model.chemistry.muProfile, dtype=float, copy=True)
+    levh = np.array(lev, dtype=float, copy=True)
+    keepT, keepmu, keeplev = T.copy(), mu.copy(), levh.copy()
     try:
-        rz, rH, rg, rdz = model.planet.calculate_scale_properties(T, np.asarray(lev, dtype=float), mu, length_units=unit)
+        rz, rH, rg, rdz = model.planet.calculate_scale_properties(T, levh, mu, length_units=unit)
     except Exception:
         rz = rH = rg = rdz = None
+    handed.extend(pair('calculate_scale_properties:' + nm, a, b)
+                  for nm, a, b in (('temperature', keepT, T), ('pressure_levels', keeplev, levh), ('mu', keepmu, mu)))
     keep = list(range(n)) if n <= 12 else sorted(set([0, 1, 2, n - 2, n - 1] + list(range(3, n - 2, max(1, n // 7)))))
     ev, floats = [], []
     for i in keep:
@@ -564,7 +689,10 @@ def events_of(model, mid, pkind, declared, X):
     for src, rec in observed_lengths(model).items():
         ev.append(dict(ev='profiles', id='%s:profiles:%s' % (mid, src), n=n, src=src, lens=rec))
     ev.append(chem_event(model, mid, n, declared['chem'], X))
-    rev, rfloats = route_events(model, mid, n, declared, lev, X)
+    handed = []
+    rev, rfloats = route_events(model, mid, n, declared, lev, X, handed)
+    # last: by now every exposed profile has been read several times
+    rev.append(reads_event(model, mid, n, declared, handed))
     return ev + rev, floats + rfloats
 
 
@@ -639,7 +767,9 @@ def run_traces(ctx, X):
         events += ev
         short = 'simple:after-history' if pkind == 'history' else (':'.join(label.split(':after-evaluation:')[0:1] + ['after-evaluation', label.split(':after-evaluation:')[1].split(':')[0]]) if pkind == 'evaluated' else label)
         labels[short] = labels.get(short, 0) + 1
-        for extra in ('chem:' + declared['chem']['kind'].split(':ngas')[0], 'route-unit:' + declared['unit']):
+        for extra in ['chem:' + declared['chem']['kind'].split(':ngas')[0], 'route-unit:' + declared['unit'],
+                      'T=%s:%s' % (declared['temp']['kind'], 'after-evaluation' if pkind == 'evaluated' else 'as-built')] + \
+                ['gas:' + t for t in declared['chem']['gastypes']]:
             labels[extra] = labels.get(extra, 0) + 1
     if nmodels < 20:
         raise Machinery('too few models generated')
@@ -679,9 +809,15 @@ def run_traces(ctx, X):
                 if 'input_table_not_distinct' in why:
                     raise Machinery('the harness declared a chemistry table with repeated entries: %s' % e['id'])
                 for c in CHEM_CLAUSES:
-                    ctx.verdict(c, c not in why, cls='%s:trace:chem:%s' % (pkind, e['kind']),
+                    ctx.verdict(c, c not in why, cls='%s:trace:chem:%s%s' % (pkind, e['kind'], (':' + e['gases']) if e.get('gases') else ''),
                                 detail='TLC rejected %s (n=%d, gases %s, declared columns %s): %s' % (e['id'], n, e['names'], e['col'], sorted(why)),
                                 vector=dict(recipe, event=e if n <= 12 else dict(id=e['id'], n=n, kind=e['kind'])))
+            elif e['ev'] == 'reads':
+                wrong = sorted(badids[e['id']].get('wrong', [])) if e['id'] in badids else []
+                for c in READ_CLAUSES:
+                    ctx.verdict(c, c not in why, cls='%s:trace:reads:%s%s' % (pkind, e['kinds'], (':' + '+'.join(wrong[:3])) if c in why else ''),
+                                detail='TLC rejected %s (n=%d): arrays that differ: %s' % (e['id'], n, wrong),
+                                vector=dict(recipe, event=dict(id=e['id'], kinds=e['kinds'], differ=wrong)))
             else:
                 wrong = sorted(badids[e['id']].get('wrong', [])) if e['id'] in badids else []
                 ctx.verdict('one_entry_per_layer', 'one_entry_per_layer' not in why,
@@ -696,6 +832,9 @@ def run_traces(ctx, X):
             'chem:file:square', 'chem:file', 'chem:taurex', 'route-unit:km', 'route-unit:cm', 'route-unit:Rjup']
     missing = [k for k in need if not any(lb.startswith(k) for lb in labels)]
     missing += ['after-evaluation:' + mk for mk in MODEL_KINDS if not any(lb.endswith('after-evaluation:' + mk) for lb in labels)]
+    # every built-in temperature component as built AND after evaluation; every gas type
+    missing += [k for k in ['T=%s:%s' % (t, w) for t in TEMP_KINDS for w in ('as-built', 'after-evaluation')] + ['gas:' + t for t in GAS_TYPES]
+                if k not in labels]
     if missing:
         raise Machinery('input classes never generated: %r' % missing)
     ctx.add_sample(dict(trace_event=next(e for e in events if e['ev'] == 'step')))
@@ -763,6 +902,22 @@ def run_canaries(events, allbad):
             raise Machinery('no square chemistry table available for the canaries')
     elif not allbad:
         raise Machinery('no chemistry event available for the canaries')
+    # reads: the second read of one exposed array differs in one sampled entry / is flagged as differing somewhere;
+    # a handed array differs from the private copy
+    rds = [e for e in events if e['ev'] == 'reads' and e['pairs'] and e['handed'] and e['pairs'][0]['a']]
+    if rds:
+        a = dict(rds[0]); a['pairs'] = [dict(p_) for p_ in a['pairs']]
+        a['pairs'][0]['b'] = [list(x) for x in a['pairs'][0]['b']]; a['pairs'][0]['b'][0][0] += 1
+        a['id'] = 'canary-reread'; can.append(a)
+        b = dict(rds[-1]); b['pairs'] = [dict(p_) for p_ in b['pairs']]; b['pairs'][-1]['same'] = False
+        b['id'] = 'canary-reread-whole'; can.append(b)
+        c = dict(rds[len(rds) // 2]); c['handed'] = [dict(p_) for p_ in c['handed']]; c['handed'][0]['same'] = False
+        c['id'] = 'canary-handed'; can.append(c)
+        want += ['canary-reread', 'canary-reread-whole', 'canary-handed']
+        if rds[0]['id'] not in allbad:
+            g = dict(rds[0]); g['id'] = 'canary-reads-good'; can.append(g)
+    elif not allbad:
+        raise Machinery('no reads event available for the canaries')
     if not can:
         return
     ok, bad, res = validate_trace('Trace_Atmosphere', 'Trace_Atmosphere.cfg', can)
@@ -795,18 +950,43 @@ def history_scenarios(X):
         evaluation of the walk) is only initialised, never evaluated.  So every observation states:
         the structure exposed after evaluation = the structure of a fresh, un-evaluated model."""
 
-        def __init__(self, name, params, dims, n, base, mkind='transmission-old-path', contributions=('absorption', 'rayleigh')):
+        def __init__(self, name, params, dims, n, base, mkind='transmission-old-path', contributions=('absorption', 'rayleigh'),
+                     temp='isothermal', gas='constant'):
             self.name, self.params, self.dims, self.n, self.base = name, params, dims, n, base
             self.mkind, self.contributions = mkind, list(contributions)
+            self.temp, self.gas = temp, gas         # the TYPE of the temperature component / of the H2O profile
+
+        def temperature(self, c):
+            from taurex.data.profiles.temperature import Guillot2010, NPoint, Rodgers2000
+            if self.temp == 'guillot':
+                return Guillot2010(T_irr=c['T_irr'], kappa_irr=0.01, kappa_v1=0.005, kappa_v2=0.003, alpha=0.4, T_int=100.0)
+            if self.temp == 'npoint':
+                return NPoint(T_surface=c['T_surface'], T_top=600.0, temperature_points=[1100.0], pressure_points=[1.0e3], smoothing_window=10)
+            if self.temp == 'rodgers':
+                return Rodgers2000(temperature_layers=[float(t) for t in np.linspace(c['T'], 0.4 * c['T'], self.n)], correlation_length=3.0)
+            return X['Isothermal'](T=c['T'])
+
+        def chemistry(self):
+            from taurex.data.profiles.chemistry import TwoLayerGas, PowerGas
+            from taurex.data.profiles.chemistry.gas.twopointgas import TwoPointGas
+            chem = X['TaurexChemistry'](fill_gases=['H2', 'He'], ratio=0.17)
+            if self.gas == 'twolayer':
+                chem.addGas(TwoLayerGas('H2O', mix_ratio_surface=1e-3, mix_ratio_top=1e-5, mix_ratio_P=1e3, mix_ratio_smoothing=10))
+            elif self.gas == 'power':
+                chem.addGas(PowerGas('H2O', mix_ratio_surface=1e-3))
+            elif self.gas == 'twopoint':
+                chem.addGas(X['ConstantGas']('H2O', mix_ratio=1e-3))
+                chem.addGas(TwoPointGas('CH4', mix_ratio_surface=1e-4, mix_ratio_top=1e-7))
+            else:
+                chem.addGas(X['ConstantGas']('H2O', mix_ratio=1e-3))
+            return chem
 
         def fresh(self, v):
             c = dict(self.base)
             c.update(dict(zip(self.params, v)))
-            chem = X['TaurexChemistry'](fill_gases=['H2', 'He'], ratio=0.17)
-            chem.addGas(X['ConstantGas']('H2O', mix_ratio=1e-3))
             common = dict(planet=X['Planet'](planet_mass=c['planet_mass'], planet_radius=c['planet_radius']),
-                          star=X['BlackbodyStar'](), temperature_profile=X['Isothermal'](T=c['T']),
-                          chemistry=chem, nlayers=self.n, atm_min_pressure=c['atm_min_pressure'],
+                          star=X['BlackbodyStar'](), temperature_profile=self.temperature(c),
+                          chemistry=self.chemistry(), nlayers=self.n, atm_min_pressure=c['atm_min_pressure'],
                           atm_max_pressure=c['atm_max_pressure'])
             if self.mkind == 'emission':
                 m = X['EmissionModel'](ngauss=4, **common)
@@ -830,15 +1010,18 @@ def history_scenarios(X):
             return structure(m, C)
 
     base = dict(planet_mass=1.0, planet_radius=1.0, T=1200.0, atm_min_pressure=1e-1, atm_max_pressure=1e6)
-    return [OneModel('planet', ['planet_radius', 'planet_mass', 'T'], [[0.7, 1.0, 1.35], [0.6, 1.0, 2.2], [700.0, 1200.0, 1900.0]], 9, base,
-                     mkind='transmission-new-path', contributions=('absorption', 'rayleigh', 'clouds')),
+    # third round: the long-lived models are assembled from components of several built-in types (the temperature
+    # components read the layer-pressure array the model shares with them; T_irr / T_surface are their own fitting
+    # parameters), one scenario keeps the default components
+    return [OneModel('planet', ['planet_radius', 'planet_mass', 'T_irr'], [[0.7, 1.0, 1.35], [0.6, 1.0, 2.2], [900.0, 1500.0, 2100.0]], 9, base,
+                     mkind='transmission-new-path', contributions=('absorption', 'rayleigh', 'clouds'), temp='guillot', gas='twolayer'),
             OneModel('grid', ['atm_max_pressure', 'atm_min_pressure', 'planet_radius'],
-                     [[1e4, 1e5, 1e7], [1e-3, 1e-1, 5.0], [0.8, 1.0, 1.2]], 6, base, mkind='transmission-old-path'),
+                     [[1e4, 1e5, 1e7], [1e-3, 1e-1, 5.0], [0.8, 1.0, 1.2]], 6, base, mkind='transmission-old-path', temp='rodgers', gas='twopoint'),
             OneModel('one-layer', ['atm_max_pressure', 'planet_radius', 'planet_mass'],
                      [[1e3, 1e5, 1e6], [0.9, 1.0, 1.5], [0.5, 1.0, 1.6]], 1, base, mkind='transmission-new-path',
                      contributions=('rayleigh', 'absorption')),
-            OneModel('emission', ['T', 'planet_mass', 'atm_min_pressure'],
-                     [[800.0, 1200.0, 2000.0], [0.6, 1.0, 2.2], [1e-2, 1e-1, 1.0]], 7, base, mkind='emission')]
+            OneModel('emission', ['T_surface', 'planet_mass', 'atm_min_pressure'],
+                     [[1300.0, 1700.0, 2400.0], [0.6, 1.0, 2.2], [1e-2, 1e-1, 1.0]], 7, base, mkind='emission', temp='npoint', gas='power')]
 
 
 def replay_history(ctx, v, X):
@@ -887,16 +1070,20 @@ def run(ctx):
     tier = ctx.tier
     t0 = time.time()
     # the design-level TLC runs are independent processes: run them side by side while taurex is imported
-    with ThreadPoolExecutor(max_workers=6) as ex:
+    with ThreadPoolExecutor(max_workers=8) as ex:
         jobs = [ex.submit(ctx.check_spec, 'exhaustive', 'MC_Atmosphere', 'MC_Atmosphere_%s.cfg' % tier,
-                          need_actions=('Levels', 'Chemistry', 'Step', 'Profiles', 'Evaluate'), workers=6),
+                          need_actions=('Levels', 'Chemistry', 'Step', 'Profiles', 'Evaluate', 'Read'), workers=6),
                 ex.submit(ctx.check_spec, 'export', 'MC_Atmosphere', 'EX_Atmosphere_quick.cfg' if q else 'EX_Atmosphere.cfg', workers=1)]
         # non-vacuity: each modelled defect (top layer dropped; square table kept un-transposed; unit
         # conversion inside the recurrence; in-place z += dz/2 during evaluation) is refuted by TLC
         for label, cfg, inv in (('droplast-refuted', 'MC_Atmosphere_droplast.cfg', 'OneEntryPerLayer'),
                                 ('transposed-refuted', 'MC_Atmosphere_transposed.cfg', 'MixAlignedWithLayers'),
                                 ('unitloop-refuted', 'MC_Atmosphere_unitloop.cfg', 'StepRelationAnyUnit'),
-                                ('inplace-refuted', 'MC_Atmosphere_inplace.cfg', 'EvaluationKeepsStructure')):
+                                ('inplace-refuted', 'MC_Atmosphere_inplace.cfg', 'EvaluationKeepsStructure'),
+                                # a component that writes into the arrays the model shares with it: the temperature
+                                # profile scaling the layer pressures whenever it is evaluated; a read that scales T
+                                ('sharedwrite-refuted', 'MC_Atmosphere_sharedwrite.cfg', 'LayerIsGeometricMean'),
+                                ('sharedread-refuted', 'MC_Atmosphere_sharedread.cfg', 'ReadsAreRepeatable')):
             jobs.append(ex.submit(ctx.expect_refuted, label, 'MC_Atmosphere', cfg, inv, workers=1))
         X = setup()
         if not units_consistent():
@@ -944,7 +1131,8 @@ def _replay(ctx, violations, X):
             replay_history(ctx, v, X)
             continue
         if not vec.get('trace'):
-            judge_vector(ctx, {k: vec[k] for k in vec if k not in ('units', 'pkind')}, vec['units'], vec['pkind'], X)
+            judge_vector(ctx, {k: vec[k] for k in vec if k not in ('units', 'pkind', 'tkind')}, vec['units'], vec['pkind'], X,
+                         vec.get('tkind', 'array'))
             continue
         key = (vec['sub'], vec['n'], vec['pkind'])
         if key not in models:
